@@ -218,6 +218,16 @@ func runC13(o *out, thorough bool, r *rng, _ []string) map[string]interface{} {
 		o.run(1301, fs, true)
 		o.count("mass-close-histories")
 	}
+	// thousands of transactions in flight at once (no limit on their number is part of the abstract table)
+	for _, k := range []int{4095, 4097, 9000} {
+		var fs []string
+		for id := 1; id <= k; id++ {
+			fs = append(fs, fNums(1, id, 1000+id%7))
+		}
+		fs = append(fs, fNums(1, 5, 3), fNums(4, 1003), fNums(2, k, 0), fNums(6))
+		o.run(1301, fs, true)
+		o.count("thousands-in-flight-histories")
+	}
 	// many transactions expiring in ONE Collect (on both sides of the 100 the library pre-allocates for)
 	for _, k := range []int{99, 100, 101, 150, 257, 300} {
 		var fs []string
